@@ -21,7 +21,7 @@ ASSUMPTIONS = [
     "tolerance 64*eps*(pointwise sum|G||f| + 0.05*||f||2*||G||2)*dx^d models FFT round-off; calibrated headroom >= 10x",
     "bitwise history independence is only asserted inside one process / one FFTW plan",
 ]
-REQUIRE = {"solves_vs_direct_convolution": 4, "impulse_cells_compared": 100, "history_probes_bitwise": 2}
+REQUIRE = {"sibling_objects_same_shape_other_domain_length": 4, "solves_vs_direct_convolution": 4, "impulse_cells_compared": 100, "history_probes_bitwise": 2}
 XR = (0.37, 1.0, 2 * np.pi, 10.0)
 
 
@@ -47,12 +47,21 @@ def run_shard(sh, rec):
     rng = util.rng_for(seed, "C03", sh["idx"])
     nobj = 2 if tier == "quick" else 5
     hi = (40 if d == 2 else 14) if tier == "quick" else (48 if d == 2 else 18)
+    prev = None
     for k in range(nobj):
         shape = util.shape2d(rng, 3, hi) if d == 2 else util.shape3d(rng, 3, hi)
         if k == 0 and sh["idx"] % 5 == 0:
             shape = tuple([3] * (d - 1) + [int(rng.integers(3, 9))])  # minimal slab
         xr = float(XR[int(rng.integers(len(XR)))])
         nt = int(rng.choice([1, 4]))
+        if prev is not None and k % 2 == 1:
+            # sibling object: same grid shape and precision as the previous object in this process, different domain
+            # length (and thread count) - anything cached per shape/precision across objects shows up here
+            shape = prev[0]
+            xr = float([x for x in XR if x != prev[1]][int(rng.integers(len(XR) - 1))])
+            nt = 5 - prev[2]
+            rec.count("sibling_objects_same_shape_other_domain_length")
+        prev = (shape, xr, nt)
         if d == 2:
             s = spne.UnboundedPoissonSolverPYFFTW2D(grid_size_y=shape[0], grid_size_x=shape[1], x_range=xr, num_threads=nt, real_t=real_t)
         else:
